@@ -142,3 +142,11 @@ package redis
 //@   requires next != nil
 //@   ensures calls(next) == old(calls(next)) + 1 && result == ret(next)
 //@   call next#0: assert arg0 == ctx
+
+// every lock instance gets its own fresh 16-character random id (the value the scripts compare): ids are not derived from
+// anything shared between instances
+//@ func NewRedisLock
+//@   property C19
+//@   ghost at after Randn#0: rid = ret
+//@   call Randn#0: assert arg_n == 16
+//@   ensures result != nil && result.id == rid && result.store == store && result.key == key
